@@ -903,6 +903,9 @@ func (env *SpecEnv) call(c *ast.CallExpr) Val {
 		}
 		if g := fc.eng.ghosts[id.Name]; g != nil && g.Field {
 			ref := refOf(env.expr(c.Args[0]))
+			if g.Volatile && !fc.usesVolatile(g.Name) {
+				env.fail("volatile ghost %s is read in a function whose own contract does not mention it", g.Name)
+			}
 			t := fc.loadLoc(env.st, loc{name: "GH$" + g.Name, idx: []string{ref}, sort: g.Ret})
 			switch g.Ret {
 			case "Bool":
